@@ -13,8 +13,10 @@ def run(ck, progs):
                      "the result is the least id routed to that partition or later, so ranges are contiguous, disjoint and cover")
     ck.rule("C14.4", "users route through the macros: queue selection, local/remote decision with destination rank, remote anti-message destination")
     ck.rule("C14.5", "lp_init and lp_fini iterate exactly the thread's ownership range and run the per-LP init / fini once per iteration")
+    ck.rule("C14.6", "each routing macro maps its range onto 0..parts-1: it is (x - start) * parts / total with exactly the parts/start/total its partition_start calls use")
     for cfg, P in progs.items():
         R.check_monotone_routing(ck, P, "C14.1")
         R.check_bounds_from_routing(ck, P, "C14.2")
         R.check_routing_users(ck, P, "C14.4")
         R.check_lp_loops(ck, P, "C14.5")
+        R.check_routing_range(ck, P, "C14.6")
